@@ -55,6 +55,9 @@ class C15(Prop):
             V = [[(float(rng.randint(0, 4)) if integer or rng.random() < .3 else rng.random()) for _ in range(m)] for _ in range(n)]
             if integer and i % 10 == 0:
                 V[rng.randrange(n)][rng.randrange(m)] = 0.5      # a non-integral answer must be rejected by integer elicitors
+            if not integer and i % 4 == 1:
+                for _ in range(rng.randint(1, 3)):
+                    V[rng.randrange(n)][rng.randrange(m)] = None   # NaN = unacceptable item of an incomplete valuation profile: a legitimate answer
             qs = [(rng.randrange(n), rng.randrange(m)) for _ in range(rng.randint(1, 12))]
             qs += [rng.choice(qs) for _ in range(rng.randint(0, 6))]
             rng.shuffle(qs)
@@ -64,7 +67,7 @@ class C15(Prop):
     def run_seq(self, case):
         from socialchoicekit.elicitation_utils import LambdaElicitor, IntegerLambdaElicitor, ValuationProfileElicitor, IntegerValuationProfileElicitor
         from socialchoicekit.profile_utils import ValuationProfile, IntegerValuationProfile
-        V = case["V"]; fixer = 0 if case["ezi"] else 1
+        V = [[float("nan") if x is None else x for x in row] for row in case["V"]]; fixer = 0 if case["ezi"] else 1
         use_int = case["integer"] and not (case["cls"] == "profile" and not all(float(x).is_integer() for row in V for x in row))
         def go():
             trace = []
@@ -89,7 +92,7 @@ class C15(Prop):
                 ans = el.elicit_multiple(np.array([a for a, _ in case["qs"]]), np.array([b for _, b in case["qs"]])).tolist()
             else:
                 ans = [el.elicit(a, b) for a, b in case["qs"]]
-            return dict(status="ok", answers=[float(x) for x in ans], trace=trace, count=el.elicitation_count, fixer=f,
+            return dict(status="ok", answers=[None if x != x else float(x) for x in ans], trace=trace, count=el.elicitation_count, fixer=f,
                         types_ok=all(isinstance(x, (int, np.integer)) for x in ans) if use_int and not case["multiple"] else True)
         r = supervised(go, 10.0)
         if r[0] != "ok":
@@ -119,7 +122,7 @@ class C15(Prop):
 
     def oracle(self, case, obs):
         if case["rule"] == "SEQ":
-            V = case["V"]; integer = case["integer"]
+            V = [[float("nan") if x is None else x for x in row] for row in case["V"]]; integer = case["integer"]
             if case["cls"] == "profile" and not all(float(x).is_integer() for row in V for x in row):
                 integer = False   # an IntegerValuationProfile cannot hold non-integers: the float elicitor is used for this case
             nonint = [(a, b) for a, b in case["qs"] if not float(V[a][b]).is_integer()]
@@ -129,7 +132,7 @@ class C15(Prop):
             if obs["status"] != "ok":
                 return ("no_result", "elicitor failed: %s %s" % (obs.get("err"), obs.get("msg")))
             f = obs["fixer"]
-            want = [float(V[a][b]) for a, b in case["qs"]]
+            want = [None if V[a][b] != V[a][b] else float(V[a][b]) for a, b in case["qs"]]
             if obs["answers"] != want:
                 return ("wrong_answer", "answers %r, true values %r" % (obs["answers"], want))
             fw = [(a - f, b - f) for a, b in obs["trace"]]
@@ -173,7 +176,9 @@ class C15(Prop):
     def coq(self, case, obs):
         if case["rule"] == "SEQ":
             if obs["status"] != "ok": return None
-            rc = E.run_case_lit(case["memoize"], obs["fixer"], case["V"], cl([cq(frac(x)) for x in obs["answers"]]), obs["trace"], obs["count"])
+            NANQ = -987654321.0    # NaN answers are carried through the model as one reserved rational on both sides
+            Vq = [[NANQ if x is None else x for x in row] for row in case["V"]]
+            rc = E.run_case_lit(case["memoize"], obs["fixer"], Vq, cl([cq(frac(NANQ if x is None else x)) for x in obs["answers"]]), obs["trace"], obs["count"])
             return ("seq", ct(E.ckeys(case["qs"]), rc))
         fixer = 0 if case.get("ezi", True) else 1
         if case["rule"] == "Double" and case["side"] == 1:
